@@ -518,7 +518,7 @@ pub fn eval_external(mem: &mut Memory, tree: GcRef) -> Result<GcRef, String> {
                 Err(format!("Evaluation aborted."))
             }
             else {
-                Err(list_to_string(crate::native::print::print(mem, &[signal], empty_env, recursion_depth).ok().unwrap()).unwrap())
+                Err(crate::native::print::print(mem, &[signal], empty_env, recursion_depth).ok().and_then(|x| list_to_string(x)).unwrap_or("#<ERROR: CANNOT CONVERT SIGNAL TO STRING>".to_string()))
             }
         },
     };
